@@ -380,6 +380,53 @@ Definition copy_h5_2d (d : dense) (n_rows n_cols per_dim : nat) : dense :=
   | _ => []
   end.
 
+(* ---------------------------------------------------------------- specification *)
+(* pointer array monotone *)
+Fixpoint mono (l : list nat) : Prop :=
+  match l with
+  | [] => True
+  | x :: t => match t with [] => True | y :: _ => x <= y /\ mono t end
+  end.
+
+(* a well-formed compressed matrix with n_minor possible minor indices: the pointer
+   array starts at 0, is monotone and ends at the number of stored entries *)
+Definition wf_comp (m : comp) (n_minor : nat) : Prop :=
+  hd 1 (ptr m) = 0 /\ last (ptr m) 0 = length (idx m) /\ mono (ptr m) /\
+  Forall (fun r => r < n_minor) (idx m).
+
+Definition wf_csr (m : comp) (n_rows n_cols : nat) : Prop :=
+  wf_comp m n_cols /\ length (ptr m) = S n_rows /\ length (dat m) = length (idx m).
+
+(* positions of the stored entries of major slice j *)
+Definition span (m : comp) (j : nat) : list nat :=
+  seq (nth j (ptr m) 0) (nth (S j) (ptr m) 0 - nth j (ptr m) 0).
+
+(* is (major j, minor x) stored?  which value? *)
+Definition stored (m : comp) (j x : nat) : bool :=
+  existsb (fun k => nth k (idx m) 0 =? x) (span m j).
+Definition lookup (m : comp) (j x : nat) : option Z :=
+  match find (fun k => nth k (idx m) 0 =? x) (span m j) with
+  | Some k => Some (nth k (dat m) 0%Z)
+  | None => None
+  end.
+
+(* no major slice stores a minor index twice *)
+Definition no_dup_minor (m : comp) : Prop :=
+  forall j, S j < length (ptr m) -> NoDup (map (fun k => nth k (idx m) 0) (span m j)).
+
+(* the dense view: n_major x n_minor, 0 where nothing is stored *)
+Definition cell (m : comp) (j x : nat) : Z :=
+  match lookup m j x with Some v => v | None => 0%Z end.
+Definition dense_of (m : comp) (n_major n_minor : nat) : dense :=
+  map (fun j => map (cell m j) (seq 0 n_minor)) (seq 0 n_major).
+
+(* a list of ranges that starts at a, is contiguous, has no empty range, ends at n *)
+Fixpoint chained (a : nat) (l : list (nat * nat)) (n : nat) : Prop :=
+  match l with
+  | [] => a = n
+  | ch :: t => fst ch = a /\ fst ch < snd ch /\ chained (snd ch) t n
+  end.
+
 (* ---------------------------------------------------------------- wire *)
 Definition of_res {A} (f : A -> sx) (r : res A) : sx :=
   match r with Ok a => sx_ok (f a) | Err e => sx_err (err_code e) end.
